@@ -313,6 +313,20 @@ def _model(case, ctx):
     D1 = stats.ks_distance_u(P1)
     e1 = stats.dkw_eps(n_emp)
     ctx.check("c16.sample-law", D0 <= e1 and D1 <= e1, "samples of the transformed model do not follow the exact push-forward law", ks_hs=D0, ks_tz_given_hs=D1, eps=e1, **info)
+    # a second transformed model alive in the same process: each model's empirical cdf (default = its own cached
+    # sample of 1e6 points) must follow its OWN law
+    spec_b = hs_s_spec(np.random.default_rng(case["sub"] + 11), "random")
+    ref_b = S.RefModel(spec_b)
+    tm_b, _ = build_transformed(spec_b)
+    n_def = 1000000
+    en6 = stats.naaman_eps(n_def, 2)
+    for label, mdl, rf in (("first", tm, ref), ("second", tm_b, ref_b), ("first-again", tm, ref)):
+        Ub = np.array([[sp.ndtri(0.6), sp.ndtri(0.55)]])
+        xbb = rf.inv_rosenblatt(Ub)[0]
+        xx = np.array([xbb[0], tz_of(xbb[0], xbb[1])])
+        w_, e_ = exact_joint_cdf(rf, xx[0], xx[1])
+        emp_ = float(np.asarray(mdl.empirical_cdf(xx.reshape(1, 2)), float)[0])
+        ctx.check("c16.empirical-cdf-own-sample", abs(emp_ - w_) <= en6 + 10 * e_ + 1e-6, f"empirical_cdf (default sample) of the {label} of two live transformed models does not follow its own law", empirical=emp_, exact=w_, eps=en6, **info)
     ctx.nontrivial = True
     ctx.sample = {"kind": "model", "variant": case["variant"], "point": x.tolist(), "cdf": got, "exact_cdf": want, "empirical_cdf": emp}
 
